@@ -89,6 +89,43 @@ pub fn run(ctx: &mut Ctx) {
         view_case(ctx, &c, "ready");
         ctx.rng = rng;
     }
+    // a device session holding reader trust anchors: a reader-authenticated request handled by the session object
+    // and by its restored copy must be judged alike (the registry, purposes included, is part of the session state)
+    for i in 0..ctx.budget(6, 150) {
+        let mut rng = ctx.rng.clone();
+        let pki = crate::pki::Pki::generate(&mut rng);
+        let (m, _k) = issue(&mut rng, &pki, MDL, [(NS.to_string(), [("family_name".to_string(), ciborium::Value::Text("Doe".into()))].into_iter().collect())].into_iter().collect(), isomdl::definitions::DigestAlgorithm::SHA256, false);
+        use isomdl::definitions::x509::trust_anchor::TrustPurpose;
+        let dev_reg = match i % 3 {
+            0 => registry(vec![(pki.reader_ca.clone(), TrustPurpose::ReaderCa)]),
+            1 => registry(vec![(pki.iaca.clone(), TrustPurpose::Iaca), (pki.reader_ca.clone(), TrustPurpose::ReaderCa)]),
+            _ => registry(vec![(pki.reader_ca.clone(), TrustPurpose::Iaca)]), // trusted for the other purpose only
+        };
+        let Ok(e) = establish(documents_of(vec![m]), None, &request_specs()[0], Default::default(), dev_reg) else { ctx.rng = rng; continue };
+        let de = base64::decode_config(e.qr.strip_prefix("mdoc:").unwrap(), base64::Config::new(base64::CharacterSet::UrlSafe, false)).unwrap();
+        let est = crate::runner::from_bytes(&e.establishment).unwrap();
+        let erk = match map_get(&est, "eReaderKey") { Some(ciborium::Value::Tag(24, b)) => b.as_bytes().unwrap().clone(), _ => vec![] };
+        let items = crate::c11::items_request_bytes(&mut rng, false);
+        let payload = crate::c11::rab(&de, &erk, &items);
+        use der::Encode;
+        let ra = crate::c11::reader_auth(&pki.reader_key, Some(pki.reader.to_der().unwrap()), None, -7, &payload, false);
+        let request = ciborium::Value::Map(vec![(text("version"), text("1.0")), (text("docRequests"), arr(vec![ciborium::Value::Map(vec![
+            (text("itemsRequest"), ciborium::Value::Tag(24, Box::new(bytes(&items)))), (text("readerAuth"), ra)])]))]);
+        let (dk, _) = dev_view(&e.dev);
+        let msg = session_data(Some(&aes_encrypt(&dk.sk_reader, &iso_iv(false, dk.reader_ctr as u32 + 1), &crate::runner::to_bytes(&request))), None);
+        let status = |o: &isomdl::presentation::authentication::RequestAuthenticationOutcome| match o.reader_authentication {
+            isomdl::presentation::authentication::AuthenticationStatus::Unchecked => 0u64,
+            isomdl::presentation::authentication::AuthenticationStatus::Invalid => 1,
+            isomdl::presentation::authentication::AuthenticationStatus::Valid => 2 };
+        let mut a = e.dev.clone();
+        let mut b = match device::SessionManager::parse(e.dev.stringify().expect("stringify")) { Ok(b) => b, Err(_) => { ctx.case("differential_reader_auth", json!({"registry": i % 3, "restore": "failed"}), ciborium::Value::Bool(false), None, Some(("c14.spec_same", vec![])), true); ctx.rng = rng; continue } };
+        let ra_a = catch(|| a.handle_request(&msg)).map(|o| status(&o)).unwrap_or(9);
+        let ra_b = catch(|| b.handle_request(&msg)).map(|o| status(&o)).unwrap_or(9);
+        let same = ra_a == ra_b && a.stringify().ok() == b.stringify().ok();
+        ctx.count(&format!("reader_auth_after_restore:original={ra_a} restored={ra_b}"));
+        ctx.case("differential_reader_auth", json!({"registry": i % 3, "original": ra_a, "restored": ra_b}), ciborium::Value::Bool(same), None, Some(("c14.spec_same", vec![])), true);
+        ctx.rng = rng;
+    }
     // engagement-phase objects
     for _ in 0..ctx.budget(10, 200) {
         let mut rng = ctx.rng.clone();
